@@ -181,6 +181,11 @@ func (x *Exec) rootLoad(f *Frame, lv *LValue, pos token.Pos) Term {
 		x.note("package-level variable " + lv.glob.Name() + " read as an unconstrained value")
 		name := "glob_" + sanitize(lv.glob.String())
 		x.b.DeclFun(name, nil, x.tm.SortOf(lv.ty))
+		// sentinel errors of the standard library (io.EOF, ...) are non-nil
+		if lv.glob.Pkg != nil && x.tm.SortOf(lv.ty) == SIfc && types.TypeString(lv.ty, nil) == "error" && !strings.Contains(lv.glob.Pkg.Pkg.Path(), ".") {
+			x.b.Assert(Not(Eq(Term{name, SIfc}, nilIfc)))
+			x.note("error variables of standard-library packages (sentinels such as io.EOF) are non-nil")
+		}
 		return Term{name, x.tm.SortOf(lv.ty)}
 	}
 	panic("rootLoad")
@@ -334,7 +339,7 @@ func (x *Exec) execInstr(f *Frame, b *ssa.BasicBlock, ins ssa.Instruction) {
 			return
 		}
 		ref := x.freshRef("new_" + i.Name())
-		if n, s := namedStruct(et); s != nil && n != nil {
+		if n, s := directStruct(et); s != nil && n != nil {
 			for k := 0; k < s.NumFields(); k++ {
 				fv := s.Field(k)
 				hn := x.fieldHeapName(n, fv)
@@ -534,7 +539,7 @@ func (x *Exec) execStore1(f *Frame, i *ssa.Store) {
 	vv := x.val(f, i.Val)
 	if av.LV == nil {
 		pt := i.Addr.Type().Underlying().(*types.Pointer)
-		if n, s := namedStruct(pt.Elem()); s != nil && n != nil {
+		if n, s := directStruct(pt.Elem()); s != nil && n != nil {
 			x.wholeStructStore(f, av.T, n, s, x.term(f, i.Val), i.Pos())
 			return
 		}
@@ -573,7 +578,7 @@ func (x *Exec) execUnOp(f *Frame, i *ssa.UnOp) {
 		av := x.val(f, i.X)
 		if av.LV == nil {
 			pt := i.X.Type().Underlying().(*types.Pointer)
-			if n, s := namedStruct(pt.Elem()); s != nil && n != nil {
+			if n, s := directStruct(pt.Elem()); s != nil && n != nil {
 				x.setReg(f, i, x.wholeStructLoad(f, av.T, n, s, i.Pos()))
 				return
 			}
